@@ -25,7 +25,7 @@ def gen_mixed(rng, size):
             nxt += 1
         elif r < 0.65:
             # a batcher directly behind the buffer: it unpacks an accepted batch during the hand-over
-            ents.append(dict(kind='batcher', batch_size=rng.choice([None, None, 2, 3]), up=[3]))
+            ents.append(dict(kind='batcher', batch_size=rng.choice([None, None, 2, 3, 1]), up=[3]))
             ents.append(dict(kind='sink', cycle=0, collect=rng.random() < 0.5, up=[nxt]))
             outs.append(nxt)
             nxt += 2
@@ -277,17 +277,17 @@ def gen(rng, size='small', focus=None):
             if k == 'buffer':
                 e.update(min_delay=rng.choice([0, 0, 4, 8, 16]), capacity=rng.choice([1, 2, 3, 5, None]))
             if k == 'batcher':
-                e['batch_size'] = rng.choice([None, 2, 3])
+                e['batch_size'] = rng.choice([None, 2, 3, 1])
             if k == 'processor':
                 if maints:
                     e.update(wo_dur=rng.choice([0, 8, 16, 24]), wo_cap=rng.choice([0, 8, 8, 16]), wo_cost=8 * rng.choice([0, 0, 10]))
                 if use_resources and rng.random() < 0.8:
-                    e['req'] = [[rng.choice([0, 1]), 8 * rng.choice([1, 1, 2])]]
+                    e['req'] = [[rng.choice([0, 1]), rng.choice([8, 8, 16, 4, 2, 12])]]
                     if rng.random() < 0.25:
                         other = 1 - e['req'][0][0]
-                        e['req'].append([other, 8])
+                        e['req'].append([other, rng.choice([8, 8, 4])])
                 if rng.random() < 0.3:
-                    e['on_finish'] = [rng.choice([['part_add_value', 8 * rng.choice([1, 3])], ['part_set_quality', rng.choice([0, 4, 8, 16])], ['log', 1],
+                    e['on_finish'] = [rng.choice([['part_add_value', 8 * rng.choice([1, 3, -2, -9])], ['part_set_quality', rng.choice([0, 4, 8, 16])], ['log', 1],
                                                   ['offset_next', rng.choice([-8, -4, 4, 8, 12])]])]
                     if use_batches:
                         e['on_finish'] = [['log', 1]]
@@ -295,10 +295,15 @@ def gen(rng, size='small', focus=None):
                     e['on_shutdown'] = [['create_wo_if_failure', rng.choice(maints), rng.choice([-1, 0])], ['log', 2]]
                 elif rng.random() < 0.3:
                     e['on_shutdown'] = [['log', 2]]
+                if e.get('on_shutdown') and rng.random() < 0.25:
+                    e['dup_shutdown'] = True      # the very same callback object is registered a second time
                 if rng.random() < 0.2:
                     e['on_restore'] = [['log', 3]]
             if k in ('handler', 'processor') and rng.random() < 0.2:
-                e['on_receive'] = [rng.choice([['set_cycle', cyc()], ['offset_next', rng.choice([-8, -4, 4, 8])], ['log', 0]])]
+                e['on_receive'] = [rng.choice([['set_cycle', cyc()], ['offset_next', rng.choice([-8, -4, 4, 8])], ['log', 0],
+                                               ['part_set_quality', rng.choice([0, 2, 16])], ['part_add_value', 8 * rng.choice([-3, 2, 5])]])]
+                if use_batches and e['on_receive'][0][0] == 'part_add_value':
+                    e['on_receive'] = [['log', 0]]
             i = add(e)
             cur.append(i)
             blockable.append(i)
